@@ -22,7 +22,11 @@ type Divergence struct {
 	Op    Op
 	Impl  string
 	Model string
+	S     bool // spec-level divergence (property violation at this input)
 }
+
+// Classifier decides the stratum of a divergence; nil means "the op's own S flag".
+type Classifier func(op Op, impl, model string) bool
 
 // Stats collects what a run covered (written to the evidence file).
 type Stats struct {
@@ -111,7 +115,7 @@ func (st *Stats) record(ctx string, op Op, obs string) {
 }
 
 // runCase executes the ops on both sides; it stops at the first divergence.
-func runCase(ex Executor, d *Drv, ops []Op, st *Stats, canon func(string) string) *Divergence {
+func runCase(ex Executor, d *Drv, ops []Op, st *Stats, canon func(string) string, cl Classifier) *Divergence {
 	ctx := ""
 	for i, op := range ops {
 		if strings.HasPrefix(op.Line, "create ") {
@@ -122,8 +126,16 @@ func runCase(ex Executor, d *Drv, ops []Op, st *Stats, canon func(string) string
 		if st != nil {
 			st.record(ctx, op, io)
 		}
+		if cl != nil && io == mo && cl(op, io, mo) {
+			// both sides agree on an outcome the property forbids
+			return &Divergence{i, op, io, mo, true}
+		}
 		if io != mo {
-			return &Divergence{i, op, io, mo}
+			isS := op.S
+			if cl != nil {
+				isS = cl(op, io, mo)
+			}
+			return &Divergence{i, op, io, mo, isS}
 		}
 	}
 	return nil
@@ -131,14 +143,14 @@ func runCase(ex Executor, d *Drv, ops []Op, st *Stats, canon func(string) string
 
 // shrink removes ops (never the leading reset/create) while a divergence of the same
 // stratum persists.
-func shrink(mk func() Executor, ops []Op, canon func(string) string, wantS bool) ([]Op, *Divergence) {
+func shrink(mk func() Executor, ops []Op, canon func(string) string, cl Classifier, wantS bool) ([]Op, *Divergence) {
 	test := func(cand []Op) *Divergence {
 		ex := mk()
 		defer ex.Cleanup()
 		d := mustDrv()
 		defer d.Close()
-		dv := runCase(ex, d, cand, nil, canon)
-		if dv != nil && dv.Op.S == wantS {
+		dv := runCase(ex, d, cand, nil, canon, cl)
+		if dv != nil && dv.S == wantS {
 			return dv
 		}
 		return nil
